@@ -15,6 +15,7 @@
 #include <fcppt/container/pop_back.hpp>
 #include <fcppt/container/pop_front.hpp>
 #include <fcppt/enum/from_string.hpp>
+#include <fcppt/enum/to_string.hpp>
 #include <fcppt/enum/to_string_impl_fwd.hpp>
 #include <fcppt/extract_from_string.hpp>
 #include <fcppt/filesystem/file_size.hpp>
@@ -30,6 +31,7 @@
 #include <fcppt/extract_from_string_locale.hpp>
 #include <fcppt/args_vector.hpp>
 
+#include <sanitizer/asan_interface.h>
 #include <sys/stat.h>
 #include <sys/types.h>
 #include <cstdio>
@@ -137,14 +139,22 @@ std::string hex_payload(std::string const &s)
 // exact-size heap copy: no terminating zero, ASan redzone right behind the last character
 struct exact
 {
+  // n characters followed by 16 bytes of '#' that are poisoned for ASan: an instrumented read behind the view is
+  // reported, an uninstrumented one (inside libc: getenv, strlen, fopen …) sees garbage instead of a lucky NUL
+  static constexpr std::size_t slack = 16;
   std::unique_ptr<char[]> mem;
   std::size_t n;
-  explicit exact(std::string const &s) : mem(new char[s.size() == 0 ? 1 : s.size()]), n(s.size())
+  explicit exact(std::string const &s) : mem(new char[s.size() + slack]), n(s.size())
   {
     std::memcpy(mem.get(), s.data(), s.size());
+    std::memset(mem.get() + n, '#', slack);
+    ASAN_POISON_MEMORY_REGION(mem.get() + n, slack);
   }
+  exact(exact const &) = delete;
+  exact &operator=(exact const &) = delete;
+  ~exact() { ASAN_UNPOISON_MEMORY_REGION(mem.get() + n, slack); }
   std::string_view view() const { return s_view(); }
-  std::string_view s_view() const { return n == 0 ? std::string_view{mem.get() + 1, 0} : std::string_view{mem.get(), n}; }
+  std::string_view s_view() const { return std::string_view{mem.get(), n}; }
 };
 
 template <typename T>
@@ -333,6 +343,19 @@ std::string handle1(std::vector<std::string> const &t)
       sm.emplace(long_string(kv.first), long_string(kv.second));
     auto const rs = fcppt::container::find_opt_mapped(sm, long_string(key));
     std::string const r6 = rs.has_value() ? "some " + std::to_string(long_value(rs.get_unsafe().get())) : std::string{"none"};
+    // aliasing: the key is a reference to the key stored in the container
+    for (auto const &kv : sm)
+    {
+      auto const ra = fcppt::container::find_opt_mapped(sm, kv.first);
+      if (!ra.has_value() || &ra.get_unsafe().get() != &kv.second)
+        return "alias-fail";
+    }
+    for (auto const &kv : um)
+    {
+      auto const ra = fcppt::container::find_opt(um, kv.first);
+      if (!ra.has_value() || &ra.get_unsafe().get() != &kv)
+        return "alias-fail";
+    }
     return r1 == r2 && r1 == r3 && r1 == r4 && r1 == r5 && r1 == r6 ? r1 : "containers-disagree " + r1 + " / " + r2 + " / " + r3 + " / " + r4 + " / " + r5 + " / " + r6;
   }
   if (op == "fromrange" && t.size() == 3)
@@ -406,6 +429,13 @@ std::string handle1(std::vector<std::string> const &t)
   {
     exact const e{payload(t[1])};
     auto const r = fcppt::enum_::from_string<color>(e.view());
+    if (r.has_value())
+    {
+      // aliasing: the view of the stored name itself must be found again
+      auto const again = fcppt::enum_::from_string<color>(fcppt::enum_::to_string(r.get_unsafe()));
+      if (!again.has_value() || again.get_unsafe() != r.get_unsafe())
+        return "alias-fail";
+    }
     return r.has_value() ? "some " + std::to_string(static_cast<int>(r.get_unsafe())) : std::string{"none"};
   }
   if (op == "isflag" && t.size() == 2)
@@ -464,6 +494,19 @@ std::string handle1(std::vector<std::string> const &t)
       std::string const r3 = show(fcppt::extract_from_string_locale<T>(s, cutf8));
       if (global_too)
         r1 = show(fcppt::extract_from_string<T>(s));
+      if constexpr (!std::is_same_v<T, std::string>)
+      {
+        bool ascii = true;
+        for (unsigned char c : s)
+          ascii = ascii && c < 0x80;
+        if (ascii)
+        {
+          // the std::wstring instantiation
+          std::string const r4 = show(fcppt::extract_from_string_locale<T>(std::wstring(s.begin(), s.end()), std::locale::classic()));
+          if (r4 != r2)
+            return "wide-disagrees " + r2 + " / " + r4;
+        }
+      }
       return r1 == r2 && r1 == r3 ? r1 : "locales-disagree " + r1 + " / " + r2 + " / " + r3;
     };
     if (t[1] == "int") return run(fcppt::tag<int>{});
